@@ -76,10 +76,21 @@ class Serialize(Contract):
         g = ex.ghost["G"]
         name, args = cmd.fields["name"], cmd.fields["args"]
         g.sent.append(name)
+
+        def rejected():
+            """a solver may answer `unsupported` / an error to a command whose content it cannot handle (a sort, a theory
+            symbol): its state is then unchanged (SMT-LIB 2.6, 4.1.1).  Modelled for declarations and assertions."""
+            if not ex.ghost.get("rejected") and ex.decide(ex.fresh("solver_rejects_the_command", B)):
+                ex.ghost["rejected"] = name
+                g.replies.append("unsupported")
+                return True
+            return False
         if name == "declare-fun":
             sym = args[0]
             ex.oblige("legal:symbol-not-yet-declared", z3.Not(z3.IsMember(sym, g.allD())))
             ex.oblige("legal:sorts-of-the-symbol-declared", z3.IsSubset(decls_of(sym), g.allQ()))
+            if rejected():
+                return None
             g.D[-1] = z3.SetAdd(g.D[-1], sym)
             g.replies.append("success")
             g.sat_mode = False
@@ -89,6 +100,8 @@ class Serialize(Contract):
                 raise PathAbort("declare-sort of a sort instance")
             d = BI.to_int(args[0])
             ex.oblige("legal:sort-not-yet-declared", z3.Not(z3.IsMember(d, g.allQ())))
+            if rejected():
+                return None
             g.Q[-1] = z3.SetAdd(g.Q[-1], d)
             g.replies.append("success")
             g.sat_mode = False
@@ -96,6 +109,8 @@ class Serialize(Contract):
             f = args[0]
             ex.oblige("legal:asserted-symbols-declared", z3.IsSubset(S.fv(f), g.allD()))
             ex.oblige("legal:asserted-sorts-declared", z3.IsSubset(decls_of(f), g.allQ()))
+            if rejected():
+                return None
             ex.ghost["asserted"] = f
             g.replies.append("success")
             g.sat_mode = False
@@ -169,6 +184,8 @@ class Readline(Contract):
             return "success\n"
         if r == "blank":
             return "\n"
+        if r == "unsupported":
+            return "unsupported\n"
         if r == "verdict":
             # the solver's answer: one of the standard's three, or an error line
             v = ex.fresh("verdict", I)
@@ -278,6 +295,9 @@ class SolverVariant(Variant):
                                                    "/%d sorts" % ntypes if op in ("add_assertion", "is_sat", "is_valid", "is_unsat") else "",
                                                    "/pending-pop" if pending else "")
         self.max_arity = 1 if (op == "get_model" and k >= 3) else 2       # symbols per declaration level that are enumerated
+        # the exits on a rejected command carry C15 (a failing call leaves the wrapper consistent with the solver)
+        if op in ("add_assertion", "is_sat", "is_valid", "is_unsat") and k <= 2 and not pending:
+            self.prop_ids = ("C17", "C15")
 
     def setup(self, ex):
         W = self.world
@@ -342,6 +362,11 @@ class SolverVariant(Variant):
         if not isinstance(dv, list) or not isinstance(ds, list) or len(dv) != len(g.D) or len(ds) != len(g.Q):
             return [("invariant:same-number-of-levels", z3.BoolVal(False))]
         goals = [("invariant:same-number-of-levels", z3.BoolVal(True))]
+        # the levels are separate objects (a declaration at one level must not show at another), and a pending pop
+        # has a level of its own to remove
+        sep = all(x is not y for l in (dv, ds) for i, x in enumerate(l) for y in l[i + 1:])
+        goals.append(("invariant:levels-are-separate-sets", z3.BoolVal(bool(sep))))
+        goals.append(("invariant:pending-pop-has-its-level", z3.BoolVal(self.s.fields["pending_pop"] is not True or len(g.D) >= 2)))
         for i, (a, b) in enumerate(zip(dv, g.D)):
             goals.append(("invariant:declared-symbols-mirror-level-%d" % i, BI.set_to_z3(self.world, ex, a, Node) == b))
         for i, (a, b) in enumerate(zip(ds, g.Q)):
@@ -356,11 +381,13 @@ class SolverVariant(Variant):
         verdict = ex.ghost.get("verdict")
         if kind == "raise":
             # the only legitimate failures: the solver answered 'unknown' or something that is not an answer
-            ok = op in ("solve", "is_sat", "is_valid", "is_unsat") and verdict in ("unknown", "error")
+            ok = (op in ("solve", "is_sat", "is_valid", "is_unsat") and verdict in ("unknown", "error")) or bool(ex.ghost.get("rejected"))
             goals.append(("error-only-for-unknown-or-error-answer", z3.BoolVal(bool(ok))))
             goals.append(("sync:no-reply-left-unread", z3.BoolVal(all(x == "blank" for x in g.replies))))
-            return goals
+            # a failing call leaves the wrapper consistent with the solver (C15): the class invariant holds on this exit too
+            return goals + [("failure:" + n, c) for n, c in self.mirror(ex)]
         goals.append(("sync:no-reply-left-unread", z3.BoolVal(all(x == "blank" for x in g.replies))))
+        goals.append(("returns-only-if-every-command-was-accepted", z3.BoolVal(not ex.ghost.get("rejected"))))
         goals += self.mirror(ex)
         k = self.k - (1 if self.pending else 0)          # levels denoted on entry
         if op == "push":
@@ -406,7 +433,7 @@ class SolverVariant(Variant):
 
 
 def extras(prop, tier, seed):
-    if prop != "C17":
+    if prop not in ("C17", "C15"):
         return []
     from pyvc.report import run_bounded
     return [run_bounded("smtlib_solver", tier, seed)]
